@@ -16,7 +16,7 @@ LEVEL = "exploration"
 RULE = (
     "case = one history of 10-200 operations (get_label by class/int, get_class by int/class, "
     "`in` for classes and for integers in {known, len, len+5, -1, -len-1}, is_empty with/without "
-    "label, truthful set_empty, add, iteration) on a real ClassDB over word classes, plain or "
+    "label, is_empty with the class's own emptiness check interrupted by a BaseException and asked again, truthful set_empty, add, iteration) on a real ClassDB over word classes, plain or "
     "compressed, a third of them with a coarse hash (unequal classes sharing hashes), or (15 %) over classes whose byte form is an arbitrary byte string - zlib streams of each other, truncated streams; every answer is compared with a list+dict model. non-trivial = >= 8 distinct "
     "classes stored, with repeated look-ups and unknown-key membership tests; distinct = histories"
 )
